@@ -193,6 +193,20 @@ def obligations(tier):
         add("_parafac2:_BroThesisLineSearch.line_step", f"nn_modes={nnm}", setup, call,
             lambda S, I, r, nnm=nnm: [(f"mode {m} of the iterate returned by the line search (accepted or rejected) >= 0", S.is_nonneg(r[m]), True) for m in nnm],
             dict(nn_modes=str(nnm)), "line-search iterates are clipped on the non-negative modes")
+    # ====================================================================== callee contracts used above, discharged here too: the inner NNLS solvers return
+    # entries >= eps >= 0 (the same loop-cut bodies as C13, E1-dense + z3 at enumerated sizes; only the sign clause is claimed under C10)
+    from . import c13
+    from ..oblig_dense import DOb
+    for ob in c13.obligations(tier):
+        if isinstance(ob, DOb) and ob.function.endswith((":hals_nnls", ":fista")):
+            def claims(I, out, ob=ob):
+                sel = [c for c in ob.claims(I, out) if ">= eps" in c[0]]
+                assert sel, "sign clause missing"
+                return sel
+            parts = ob.name.split("/")
+            obs.append(DOb(PID, f"{PID}/callee-contract/{parts[1]}/result ≥ eps ≥ 0" + ob.name[ob.name.index("["):], ob.function, ob.inputs, ob.call, claims, params=ob.params, pre=ob.pre,
+                           instance=dict(ob.instance), clause="ensures result >= eps >= 0 (contract used by the sweeps)", solver_timeout_ms=ob.solver_timeout_ms,
+                           check_domain=ob.check_domain, max_paths=ob.max_paths))
     return obs
 
 
